@@ -44,6 +44,9 @@ type HarnessJSON struct {
 
 // stubSets: the stub tables that go with the shared harness helpers of /verif/harness/_shared
 var stubSets = map[string]map[string]string{
+	"coll": {
+		"(*cosmossdk.io/collections.SchemaBuilder).addCollection": "verifCollAdd",
+	},
 	"kv": {
 		"(github.com/cosmos/cosmos-sdk/types.Context).KVStore":       "verifKVStore",
 		"(github.com/cosmos/cosmos-sdk/types.Context).BlockHeader":   "verifCtxHeader",
